@@ -34,6 +34,8 @@ func main() {
 		modeC07(*thorough)
 	case "c12":
 		modeC12(*thorough)
+	case "c13":
+		modeC13(*rules, *thorough)
 	case "c08":
 		modeC08(*thorough, "c08")
 	case "c19":
